@@ -33,10 +33,16 @@ func (k Keeper) OnCollectFee(ctx sdk.Context, pool types.Pool, fee sdk.Coins) er
 	}
 
 	// handling the case, pool does not enough liquidity to swap fees to revenue token when liquidity is being fully removed
+	// pool.PoolAssets shares its backing array with the caller's pool, which the caller
+	// saves afterwards: if the conversion fails midway, its reserve updates must be
+	// rolled back together with the discarded cache context.
+	poolAssetsBackup := pool.GetAllPoolAssets()
 	cacheCtx, write := ctx.CacheContext()
 	err = k.SwapFeesToRevenueToken(cacheCtx, pool, revenueAmount)
 	if err == nil {
 		write()
+	} else {
+		copy(pool.PoolAssets, poolAssetsBackup)
 	}
 	return nil
 }
